@@ -174,12 +174,19 @@ def gen_response(tape, method='GET', allow_truncate=False, allow_surplus=True, a
     payload = b'' if nobody else make_payload(tape, rng, big_ok)
     coding = 'identity'
     if allow_coding and not nobody and tape.chance(2, 5, 'coded'):
-        coding = tape.choice(('gzip', 'deflate-zlib', 'deflate-raw'), 'coding')
+        coding = tape.choice(('gzip', 'deflate-zlib', 'deflate-raw', 'gzip', 'deflate-zlib', 'deflate-raw', 'gzip-identity'), 'coding')
+    if coding == 'gzip-identity':
+        # labelled gzip but sent as is (wpull documents: a body without the gzip magic is passed through); the byte
+        # 0x1f inside it must not matter wherever the stream is cut
+        if payload[:1] == b'\x1f' or not payload:
+            payload = b'plain' + payload
+        k = tape.draw(len(payload), 'gzid.pos')
+        payload = payload[:k + 1] + tape.choice((b'\x1f', b'\x1f\x8b', b'\x1f\x8b\x08\x00'), 'gzid.magic') + payload[k + 1:]
     coded = encode_content(payload, coding, rng)
     r.payload, r.coded, r.coding = payload, coded, coding
     fields = []
     if coding != 'identity':
-        cev = 'gzip' if coding == 'gzip' else 'deflate'
+        cev = 'gzip' if coding in ('gzip', 'gzip-identity') else 'deflate'
         if tape.chance(1, 5, 'ce.case'):
             cev = cev.upper()
         fields.append(('Content-Encoding', cev))
@@ -267,6 +274,8 @@ def gen_response(tape, method='GET', allow_truncate=False, allow_surplus=True, a
         r.desc['trailers'] = tr
     elif framing in ('length', 'close'):
         r.body_wire = coded
+        if coding == 'gzip-identity':
+            hints += [base + i for i in range(len(coded)) if coded[i] == 0x1f][:6]
         hints.append(base + 1)
         hints.append(base + 2)
         hints.append(base + len(coded) - 1)
